@@ -5,7 +5,7 @@
     both as of the current tree (after fix commits a826206, 4412e3a, 4dd7734, d9e7954). *)
 From Coq Require Import List String Ascii ZArith NArith Bool Lia Permutation.
 From PintV Require Import Common.Bytes Gen.Tables Model.GitBranch Proofs.C03_match Proofs.C03_state Proofs.C03_sort Proofs.C03_added Proofs.C03_merge Proofs.C03_final.
-From PintV Require Model.GitChanges Proofs.C03_changes Proofs.C03_unquote Proofs.C03_faithful.
+From PintV Require Model.GitChanges Proofs.C03_changes Proofs.C03_unquote Proofs.C03_faithful Proofs.C03_history.
 Import ListNotations.
 Open Scope string_scope.
 Open Scope list_scope.
@@ -13,6 +13,7 @@ Open Scope list_scope.
 Module GC := Model.GitChanges.
 Module PC := Proofs.C03_changes.
 Module PF := Proofs.C03_faithful.
+Module PH := Proofs.C03_history.
 
 (** ** 1. Rename tracking: the fold over the log refines the specification-level lineage.
 
@@ -58,7 +59,7 @@ Print Assumptions C03_rename_onto_deleted_path_tracked.
     POINT (snap 0), which exists there; a record that is not a deletion is the most recent one for its path and its
     Body.After is the content of the destination path AT HEAD (snap n); a deletion has no Body.After, and its path is
     absent at HEAD unless another file was later renamed onto it. *)
-Definition enc (o : option N) : N := match o with Some b => b | None => 0%N end.
+Definition enc (o : option N) : N := match o with Some b => b | None => 0%N end.   (* = PH.enc *)
 
 Theorem C03_changes_bodies_fork_and_head :
   forall (n : nat) (snap : nat -> string -> option N) (cidx : string -> nat) (log : list GC.entry)
@@ -78,25 +79,7 @@ Theorem C03_changes_bodies_fork_and_head :
          (snap n p = None \/ exists x, In x log /\ GC.le_dst x = p /\ GC.le_src x <> p)).
 Proof.
   intros n snap cidx log type_at body_at body_lines blame LF TF BF p k ch Hp Hget.
-  destruct (PF.change_bodies_faithful n snap cidx log LF type_at TF p k ch Hget)
-    as (e1 & em & Hin1 & Hinm & Hhd & Hlast & Hafter & Hdst & Hst & Hn & Hb).
-  cbv zeta. unfold GC.finalise. cbn [GC.f_body_before GC.f_body_after]. rewrite Hhd, Hlast, Hafter.
-  split; [|split].
-  - intro Hne. destruct (Hb Hne) as [Hs Hpres]. split; auto.
-    assert (E : String.eqb (GC.ch_before ch) "" = false) by (apply String.eqb_neq; exact Hne).
-    rewrite E. simpl. rewrite (proj1 (BF e1 Hin1 (GC.ch_before ch))). unfold PF.idx in Hs. unfold PF.idx. rewrite Hs. reflexivity.
-  - intro Hd. destruct Hn as [[Hk Hn]|[HD _]].
-    + split; [exact Hk|].
-      assert (E : String.eqb p "" = false) by (apply String.eqb_neq; exact Hp). rewrite E.
-      assert (E2 : Ascii.eqb (GC.ch_status ch) (GC.st "D") = false) by (apply Ascii.eqb_neq; exact Hd). rewrite E2. simpl.
-      rewrite (proj2 (BF em Hinm p)). rewrite Hn. reflexivity.
-    + exfalso. apply Hd. rewrite Hst. exact HD.
-  - intro Hd. rewrite Hd. rewrite Ascii.eqb_refl. rewrite andb_false_r. split; [reflexivity|].
-    destruct Hn as [[Hk Hn]|[_ Hx]]; [left|right; exact Hx].
-    rewrite Hn. rewrite Hst in Hd.
-    destruct (PF.lf_entry n snap cidx log LF em Hinm) as [(Hs & _)|[(Hs & E1 & _ & Hnone)|[([Hs|Hs] & _)|(Hs & _)]]];
-      unfold PF.is_st in Hs; rewrite Hs in Hd; try (vm_compute in Hd; discriminate Hd).
-    rewrite <- Hdst, <- E1. exact Hnone.
+  exact (PH.bodies_fork_and_head n snap cidx log type_at body_at body_lines blame LF TF BF p k ch Hp Hget).
 Qed.
 Print Assumptions C03_changes_bodies_fork_and_head.
 
@@ -123,16 +106,7 @@ Theorem C03_compared_versions_are_fork_and_head :
       (GC.ch_status ch = GC.st "D" -> ci_after ci = parse 0%N p).
 Proof.
   intros n snap cidx log type_at body_at body_lines blame parse LF TF BF p k ch Hp Hget.
-  pose proof (C03_changes_bodies_fork_and_head n snap cidx log type_at body_at body_lines blame LF TF BF p k ch Hp Hget) as H.
-  cbv zeta in H. destruct H as (Hb & Ha & Hd).
-  pose proof (PC.nth_by_path_after _ _ _ _ Hget) as Hafter.
-  cbv zeta. unfold change_in_of. cbn [ci_before ci_after].
-  assert (Ec : GC.f_change (GC.finalise type_at body_at body_lines blame ch) = ch) by reflexivity.
-  rewrite Ec, Hafter. split; [|split; [|split]].
-  - intro Hne. rewrite (proj1 (Hb Hne)). reflexivity.
-  - intro He. unfold GC.finalise. cbn [GC.f_body_before]. rewrite He. reflexivity.
-  - intro Hs. rewrite (proj2 (Ha Hs)). reflexivity.
-  - intro Hs. rewrite (proj1 (Hd Hs)). reflexivity.
+  exact (PH.compared_versions n snap cidx log type_at body_at body_lines blame LF TF BF parse p k ch Hp Hget).
 Qed.
 Print Assumptions C03_compared_versions_are_fork_and_head.
 
@@ -307,6 +281,57 @@ Theorem C03_final_state_origin : forall (glob : list entry) (cs : list change_in
                  e_path a = e_path g /\ is_same a g = true /\ e_state g' = s /\ e_mod g' = ml).
 Proof. exact final_state_origin. Qed.
 Print Assumptions C03_final_state_origin.
+
+(** ** 7. The converse for ANY branch history (sections 1 and 6 composed; [PH.history_changes] = the change_in list
+    GitBranchFinder.Find builds from git.Changes's result, i.e. [classify] without the text-level log parsing).
+    Under [log_faithful], with a parser that labels entries with the path name it was given and finds no rules in an
+    absent body: take any rule [g] of the HEAD tree at a path p.  Let the base version of p be the FORK-POINT content of the
+    file p descends from (following renames; nothing if the lineage starts on the branch) and the HEAD version the content of
+    p at HEAD.  If every rule of the HEAD version at [g]'s position is untouched relative to the base version -- at least
+    as many base rules with its content, all at the same path and under the same set of disabled checks -- then [g] is
+    Noop in the list `pint ci` lints.  No condition on the number of commits, on what happened to other rules or files,
+    on intermediate states (edit-then-revert, delete and re-add, renames back and forth) or on the base branch. *)
+Theorem C03_history_untouched_noop :
+  forall (n : nat) (snap : nat -> string -> option N) (cidx : string -> nat) (log : list GC.entry)
+         (type_at : string -> string -> GC.ptype) (body_at : string -> string -> N)
+         (body_lines : N -> N) (blame : string -> string -> list (string * Z * Z))
+         (parse : N -> string -> list entry),
+    PF.log_faithful n snap cidx log ->
+    (forall e, In e log -> forall p, type_at (GC.parent (GC.le_commit e)) p = GC.Missing <-> snap (PF.idx cidx e - 1) p = None) ->
+    (forall e, In e log -> forall p, body_at (GC.parent (GC.le_commit e)) p = enc (snap (PF.idx cidx e - 1) p) /\
+                                     body_at (GC.le_commit e) p = enc (snap (PF.idx cidx e) p)) ->
+    (forall id q a, In a (parse id q) -> e_path a = q) ->
+    (forall q, parse 0%N q = []) ->
+    forall (glob : list entry) (i : nat) (g : entry),
+      nth_error glob i = Some g -> e_state g = Noop -> e_path g <> "" ->
+      let head_rules := parse (enc (snap n (e_path g))) (e_path g) in
+      (forall ch, GC.get_change_by_path (GC.fold_log type_at (fun _ => true) (fun _ => false) log) (e_path g) = Some ch ->
+         GC.ch_status ch <> GC.st "D" ->
+         let base_rules := if String.eqb (GC.ch_before ch) "" then []
+                           else parse (enc (snap 0 (GC.ch_before ch))) (GC.ch_before ch) in
+         forall a, In a head_rules -> is_same a g = true ->
+           e_name a <> "" /\
+           (count_id a head_rules <= count_id a base_rules)%nat /\
+           (forall b, In b base_rules -> is_identical a b = true ->
+              e_path b = e_path a /\ Permutation (e_disabled b) (e_disabled a))) ->
+      exists g', nth_error (find glob (PH.history_changes log type_at body_at body_lines blame parse)) i = Some g' /\
+                 strip g' = strip g /\ e_state g' = Noop.
+Proof.
+  intros n snap cidx log type_at body_at body_lines blame parse LF TF BF PP PN glob i g Hn Hs Hp head_rules Hun.
+  exact (PH.history_untouched_noop n snap cidx log type_at body_at body_lines blame LF TF BF parse PP PN glob i g Hn Hs Hp Hun).
+Qed.
+Print Assumptions C03_history_untouched_noop.
+
+(** [PH.history_changes] is what [classify] feeds to [find] once the log text is parsed. *)
+Theorem C03_classify_unfold :
+  forall type_at body_at body_lines blame parse glob lines log,
+    GC.parse_log lines "" = Some log ->
+    classify type_at (fun _ => true) (fun _ => false) body_at body_lines blame parse glob lines =
+    Some (find glob (PH.history_changes log type_at body_at body_lines blame parse)).
+Proof.
+  intros. unfold classify, GC.changes_of_log. rewrite H. unfold PH.history_changes. rewrite map_map. reflexivity.
+Qed.
+Print Assumptions C03_classify_unfold.
 
 (** ** Non-vacuity: the design-session witness base [Foo:X], HEAD [Foo:Z; Foo:X] is now classified correctly
     (new rule Added, untouched rule Noop); a reordered file/disable list keeps Noop; a renamed file gives Moved. *)
